@@ -1,7 +1,7 @@
 /-
 C02 — device memory of the host backends (Serial, OpenMP) as aliased byte arrays.
 
-Written after the C++ statement by statement (repaired code: fixes F03, F04, F35, F36, F37 applied):
+Written after the C++ statement by statement (repaired code: fixes F03, F04, F35, F36, F37, F38 applied):
   src/core/memory.cpp                         memory::slice / copyFrom / copyTo / cast / clone / free / setDtype
   src/occa/internal/core/memory.cpp           modeMemory_t::slice
   src/occa/internal/modes/serial/buffer.cpp   buffer::malloc / wrapMemory / slice
@@ -99,7 +99,8 @@ def assignTo (s0 : State) (d : Nat) : MRes → State × Res
   | .err e => (s0, .err e)
   | .trap => (s0, .trap)
 
-/-- `memory::length()` = `modeMemory->size / modeMemory->dtype_->bytes()` -/
+/-- `memory::length()` = `dtypeSize ? modeMemory->size / dtypeSize : 0` (fix F38; `Nat` division by
+    zero is 0 in Lean, so the zero-byte dtypes `void`/`none` need no separate case) -/
 def View.len (v : View) : Int := ((v.size / v.esz : Nat) : Int)
 
 /-- `udim_t(x) <= size` for values below 2^63 -/
